@@ -25,17 +25,18 @@ if [ $ok -eq 1 ]; then
   cp /tmp/confirm_$id.patch $d/patch.diff
   rsync -a --exclude target --exclude Cargo.lock demo/ $d/demo/
   [ -f NOTES.md ] && cp NOTES.md $d/NOTES.md
-  needs=$(grep -i -A6 "needs to manifest\|manifest" NOTES.md 2>/dev/null | head -12 | tr '\n' ' ' | cut -c1-600 | sed 's/"/\\"/g')
-  cat > $d/meta.json <<M
-{
- "id": "$id",
- "property": "$prop",
- "origin": "independent sub-agent given only the property text and a scratch worktree",
- "needs_to_manifest": "$needs",
- "confirmed": {"existing_tests_with_change": "$passed passed, 0 failed", "demo_with_change_exit": $rc_with, "demo_without_change_exit": $rc_without,
-   "how": "tools/confirm_seed.sh in the scratch worktree: cargo test --workspace --offline; demo (cargo run/test --offline) with the change; git stash; demo again; git stash pop"}
-}
-M
+  python3 - "$id" "$prop" "$passed" "$rc_with" "$rc_without" "$d" <<'PY'
+import json, os, re, sys
+sid, prop, passed, rcw, rcwo, d = sys.argv[1:7]
+notes = open(os.path.join(d, "NOTES.md")).read() if os.path.exists(os.path.join(d, "NOTES.md")) else ""
+m = re.search(r"(?is)what it needs to manifest\**\s*(.*?)(\n#+ |\n\*\*[A-Z]|\Z)", notes)
+needs = (m.group(1).strip() if m else notes[:600])[:900]
+meta = {"id": sid, "property": prop, "origin": "independent sub-agent given only the property text and a scratch worktree",
+        "needs_to_manifest": needs,
+        "confirmed": {"existing_tests_with_change": f"{passed} passed, 0 failed", "demo_with_change_exit": int(rcw), "demo_without_change_exit": int(rcwo),
+                      "how": "tools/confirm_seed.sh in the scratch worktree: cargo test --workspace --offline; demo (cargo run/test --offline) with the change; git checkout of the library sources; demo again; git apply"}}
+json.dump(meta, open(os.path.join(d, "meta.json"), "w"), indent=1, ensure_ascii=False)
+PY
   echo "CONFIRMED $id -> $d"
 else
   echo "NOT CONFIRMED $id (passed=$passed failed=$failed with=$rc_with without=$rc_without)"
